@@ -1,0 +1,6 @@
+//go:build !verif
+
+package utils
+
+// VerifEmit is a no-op unless built with -tags verif.
+func VerifEmit(ev string, a ...interface{}) {}
